@@ -1,5 +1,5 @@
 (* C06 — Everything below the offset returned by Sync survives losing unsynced data (the log-file level). *)
-From KV Require Import Base Model Codec CodecProofs RecoverProofs.
+From KV Require Import Base Model Codec CodecProofs RecoverProofs Durable DurableProofs.
 
 (* power loss keeps some prefix of every file (at least the fsynced length).  For a clean log cut at ANY byte
    n at or after its header: Recover keeps exactly the records that lie entirely below the cut - a prefix of
@@ -37,3 +37,67 @@ Theorem C06_recovered_is_clean :
   recover_bytes crc H p base newlog idx' = Ok (newlog, idx').
 Proof. exact recover_then_check. Qed.
 Print Assumptions C06_recovered_is_clean.
+
+(* ---------- which bytes are on stable storage (Durable.v: the table of files with their fsynced lengths, as the FS tap
+   keeps it; the create / write / fsync steps of Publish, Sync and Close decided from the L1 state as log_publish does) *)
+
+(* every file of a sealed segment is entirely on stable storage across any Publish, rollover included: the retiring
+   head is fsynced (log and index) before the new head exists *)
+Theorem C06_sealed_segments_stay_durable :
+  forall (H : bytes -> Z) st ms st' n t,
+  log_publish H st ms = Ok (st', n) -> sealed_durable (head_base st) t ->
+  sealed_durable (head_base st') (d_run t (fst (kinds_ops (head_base st) (publish_kinds st ms)))).
+Proof. exact publish_step_sealed. Qed.
+Print Assumptions C06_sealed_segments_stay_durable.
+
+(* when Sync (or Close) returns, every file is entirely on stable storage; likewise when a Publish returns on a log
+   opened with AutoSync *)
+Theorem C06_sync_makes_everything_durable :
+  forall st c t, opened st = Some c -> cro c = false -> sealed_durable (head_base st) t ->
+  all_durable (d_run t (fst (kinds_ops (head_base st) (sync_kinds st)))).
+Proof. exact sync_step_durable. Qed.
+Print Assumptions C06_sync_makes_everything_durable.
+
+Theorem C06_autosync_publish_durable :
+  forall (H : bytes -> Z) st c ms st' n t,
+  opened st = Some c -> cautosync c = true -> log_publish H st ms = Ok (st', n) ->
+  sealed_durable (head_base st) t ->
+  all_durable (d_run t (fst (kinds_ops (head_base st) (publish_kinds st ms)))).
+Proof. exact autosync_publish_durable. Qed.
+Print Assumptions C06_autosync_publish_durable.
+
+(* whatever is published, synced or rolled over afterwards, a power loss at ANY later point (every file independently
+   cut back to any length between its fsynced length and its length) leaves of every file at least the bytes it had when
+   the Sync returned - files are only ever appended to, so these are the same bytes; with C06_synced_survive on the
+   head's log this is: no live message below w is lost *)
+Theorem C06_acked_lengths_survive :
+  forall t hb ks tcut,
+  sane t -> sealed_durable hb t -> Forall kind_nonneg ks ->
+  let t_ack := d_run t (sync_ops hb) in
+  cut_ok (d_run t_ack (fst (kinds_ops hb ks))) tcut ->
+  exists kept newer, tcut = kept ++ newer /\
+    Forall2 (fun x y => fnm y = fnm x /\ flen x <= flen y) t_ack kept.
+Proof. exact acked_lengths_survive. Qed.
+Print Assumptions C06_acked_lengths_survive.
+
+(* the steps of every Publish and Sync satisfy that theorem's premise *)
+Theorem C06_api_steps_nonneg :
+  forall st ms, Forall kind_nonneg (publish_kinds st ms) /\ Forall kind_nonneg (sync_kinds st).
+Proof. intros st ms. split; [apply publish_kinds_nonneg|apply sync_kinds_nonneg]. Qed.
+Print Assumptions C06_api_steps_nonneg.
+
+(* the premises are met by a concrete run: a fresh head, a batch, a rollover, another batch - the retired segment's
+   files are durable, the new head's are not yet *)
+Example C06_durable_example :
+  let t0 := d_run [] [DCreate (FLog 0) 8; DCreate (FIdx 0) 8] in
+  let ks := [KAppend [(39, 32)]; KRoll 1 8 8; KAppend [(38, 32)]] in
+  sane t0 /\ sealed_durable 0 t0 /\ Forall kind_nonneg ks /\
+  d_run t0 (fst (kinds_ops 0 ks)) =
+    [mkF (FLog 0) 47 (Some 47); mkF (FIdx 0) 40 (Some 40); mkF (FLog 1) 46 (Some 0); mkF (FIdx 1) 40 (Some 0)].
+Proof.
+  cbv zeta. split; [|split; [|split]].
+  - intros x [<-|[<-|[]]]; cbn; lia.
+  - intros x [<-|[<-|[]]] N1 N2; cbn in *; congruence.
+  - repeat constructor; cbn; lia.
+  - reflexivity.
+Qed.
